@@ -559,6 +559,10 @@ class Body:
                     if base == ("env",) and not elems:
                         base = ("upvar", e["n"])
                         continue
+                    # an inlined closure body (sa/inline.py): the environment is the closure aggregate itself
+                    if base[0] == "agg" and base[1].startswith("closure:") and not elems and e["f"] < len(base[3]):
+                        base = base[3][e["f"]]
+                        continue
                 elems.append(e["n"])
             elif "v" in e:
                 elems.append("as:" + e["v"])
@@ -822,17 +826,32 @@ class Body:
             return None
         l = atom[1][2]
         out = set()
-        for (bi, si, kind, s) in self.defs.get(l, []):
-            if kind != "stmt":
+        ds = self.defs.get(l, [])
+        if not any(k == "stmt" and self.rvalue_term(s["rv"])[0] == "const" for (_b, _s, k, s) in ds):
+            return None
+        for d in ds:
+            bi, si, kind, s = d
+            if kind not in ("stmt", "call"):
                 return None
-            t = self.rvalue_term(s["rv"])
-            if t[0] != "const" or t[1] not in ("0", "1", "true", "false"):
+            t = self._def_term(d, 0)
+            if bi in _stack:
                 return None
-            if (t[1] in ("1", "true")) == atom[2]:
-                if bi in _stack:
+            if t[0] == "const":
+                if t[1] not in ("0", "1", "true", "false"):
                     return None
+                if (t[1] in ("1", "true")) == atom[2]:
+                    for conj in self.guard(bi, _stack):
+                        out.add(conj)
+            else:
+                # a non-constant arm (`None => true, Some(s) => t > *s`): that arm's guard and the arm's own condition
+                inner = ("bool", t, atom[2])
+                sub = self._lift_bool_phi(inner, _stack) if t[0] == "phi" else None
                 for conj in self.guard(bi, _stack):
-                    out.add(conj)
+                    if sub is None:
+                        out.add(conj | {inner})
+                    else:
+                        for c2 in sub:
+                            out.add(conj | c2)
         return out
 
     def guard(self, b, _stack=None):
